@@ -34,6 +34,9 @@ func init() {
 func runC12(c *eng.Ctx) {
 	p := c.P
 
+	// ---- 0. per-node "not found" is produced only for a metric / tag key the node really lacks (shared with C10) -----------------
+	c.Rule("ERRFLOW", "index.metricMetaDatabase{empty match is not an error}", func() { emptyMatchIsNotAnError(c) })
+
 	// ---- 1. one decrement per response, one increment pair per target ----------------------------------------------------
 	c.Rule("PASS", mcT+".handleResponse{expectResults--}", func() {
 		for _, fnKey := range []string{mcT + ".handleResponse", "query/context.MetadataContext.handleResponse", "query/context.MetadataContext.HandleResponse"} {
